@@ -202,6 +202,16 @@ type opT struct {
 	FromT   int64  `json:"fromT,omitempty"`
 	ToT     int64  `json:"toT,omitempty"`
 	Stream  bool   `json:"stream,omitempty"`
+	// patch: PatchTreasures with PatchMeta (ExpAct: "", "clear", "set"); shiftexp: HowMany; incr: Delta;
+	// setbatch: Batch (several key/values, duplicates allowed, in ONE SetRequest); setnoop: NoCreate/NoOverwrite
+	ExpAct       string `json:"expAct,omitempty"`
+	SetUpdatedAt bool   `json:"setUpdatedAt,omitempty"`
+	SetCreatedAt bool   `json:"setCreatedAt,omitempty"`
+	HowMany      int32  `json:"howMany,omitempty"`
+	Delta        int64  `json:"delta,omitempty"`
+	Batch        []opT  `json:"batch,omitempty"`
+	Skipped      string `json:"skipped,omitempty"`
+	Shifted      []string `json:"shifted,omitempty"`
 	Page    []string `json:"page,omitempty"` // observed (keys), filled by the run
 	Failed  string `json:"failed,omitempty"`
 }
@@ -269,6 +279,47 @@ func runCase(srv *rig.Server, c *caseT) (term string, nontrivial bool, reads int
 		}
 		return fmt.Sprint(index)
 	}
+	// what the swamp holds according to the history (needed to keep operations applicable:
+	// patches need a msgpack body, increments an int64, and the swamp must never be emptied)
+	type liveRec struct {
+		vt      int
+		msgpack bool
+		hasExp  bool
+	}
+	live := map[string]*liveRec{}
+	touch := func() {
+		for k := range built {
+			dirty[k] = true
+		}
+	}
+	setTerm := func(o *opT) string {
+		return fmt.Sprintf("(OSet %s %d%%N %s %s %s %s, None)", skeyBytes(o.Key), o.Val.Vt, o.Val.skey(),
+			optZ(o.Created), optZ(o.Updated), optZ(o.Expiry))
+	}
+	noteSet := func(o *opT) {
+		r := live[o.Key]
+		if r == nil {
+			r = &liveRec{}
+			live[o.Key] = r
+		}
+		r.vt, r.msgpack = o.Val.Vt, false
+		if o.Expiry != 0 {
+			r.hasExp = true
+		}
+	}
+	readBack := func(key string) *hydrapb.Treasure {
+		g, err := srv.GW.Get(ctx, &hydrapb.GetRequest{Swamps: []*hydrapb.GetSwamp{{IslandID: 1, SwampName: c.Swamp, Keys: []string{key}}}})
+		if err != nil || g == nil || len(g.GetSwamps()) == 0 || len(g.GetSwamps()[0].GetTreasures()) == 0 {
+			return nil
+		}
+		return g.GetSwamps()[0].GetTreasures()[0]
+	}
+	obsZ := func(t *timestamppb.Timestamp) string {
+		if t == nil {
+			return "None"
+		}
+		return fmt.Sprintf("(Some %d%%Z)", t.AsTime().UnixNano())
+	}
 	for oi := range c.Ops {
 		o := &c.Ops[oi]
 		switch o.Kind {
@@ -280,21 +331,148 @@ func runCase(srv *rig.Server, c *caseT) (term string, nontrivial bool, reads int
 			if err != nil || resp == nil {
 				o.Failed = fmt.Sprint("set failed: ", err)
 			}
-			terms = append(terms, fmt.Sprintf("(OSet %s %d%%N %s %s %s %s, None)", skeyBytes(o.Key), o.Val.Vt, o.Val.skey(),
-				optZ(o.Created), optZ(o.Updated), optZ(o.Expiry)))
-			for k := range built {
-				dirty[k] = true
+			terms = append(terms, setTerm(o))
+			noteSet(o)
+			touch()
+		case "setbatch":
+			// several key/values (duplicate keys allowed) in ONE swamp request: applied in order
+			var kvs []*hydrapb.KeyValuePair
+			for bi := range o.Batch {
+				b := &o.Batch[bi]
+				kv := &hydrapb.KeyValuePair{Key: b.Key, CreatedAt: ts(b.Created), UpdatedAt: ts(b.Updated), ExpiredAt: ts(b.Expiry)}
+				b.Val.apply(kv)
+				kvs = append(kvs, kv)
 			}
+			resp, err := srv.GW.Set(ctx, &hydrapb.SetRequest{Swamps: []*hydrapb.SwampRequest{{
+				IslandID: 1, SwampName: c.Swamp, CreateIfNotExist: true, Overwrite: true, KeyValues: kvs}}})
+			if err != nil || resp == nil {
+				o.Failed = fmt.Sprint("set failed: ", err)
+			}
+			for bi := range o.Batch {
+				terms = append(terms, setTerm(&o.Batch[bi]))
+				noteSet(&o.Batch[bi])
+			}
+			touch()
+		case "setnoop":
+			// a Set that must not change anything: Overwrite=false on an existing key, or
+			// CreateIfNotExist=false on a missing key (no model step)
+			_, exists := live[o.Key]
+			kv := &hydrapb.KeyValuePair{Key: o.Key, CreatedAt: ts(o.Created), UpdatedAt: ts(o.Updated), ExpiredAt: ts(o.Expiry)}
+			o.Val.apply(kv)
+			_, err := srv.GW.Set(ctx, &hydrapb.SetRequest{Swamps: []*hydrapb.SwampRequest{{
+				IslandID: 1, SwampName: c.Swamp, CreateIfNotExist: exists, Overwrite: !exists, KeyValues: []*hydrapb.KeyValuePair{kv}}}})
+			if err != nil {
+				o.Failed = fmt.Sprint("set failed: ", err)
+			}
+		case "patch":
+			r := live[o.Key]
+			if r != nil && !r.msgpack {
+				o.Skipped = "key does not hold a msgpack body"
+				continue
+			}
+			meta := &hydrapb.PatchMeta{SetUpdatedAt: o.SetUpdatedAt, SetCreatedAt: o.SetCreatedAt}
+			switch o.ExpAct {
+			case "clear":
+				meta.ClearExpiredAt = true
+			case "set":
+				meta.SetExpiredAt = ts(o.Expiry)
+			}
+			resp, err := srv.GW.PatchTreasures(ctx, &hydrapb.PatchTreasuresRequest{IslandID: 1, SwampName: c.Swamp, CreateIfNotExist: true,
+				Meta: meta, Patches: []*hydrapb.TreasurePatch{{Key: o.Key, Ops: []*hydrapb.PatchOp{{Op: hydrapb.PatchOp_SET, Path: "n", Value: []byte{byte(oi % 100)}}}}}})
+			if err != nil || resp == nil || len(resp.GetResults()) != 1 ||
+				(resp.GetResults()[0].GetStatus() != hydrapb.PatchResult_PATCHED && resp.GetResults()[0].GetStatus() != hydrapb.PatchResult_CREATED) {
+				o.Failed = fmt.Sprint("patch not applied: ", err, resp)
+				continue
+			}
+			created := resp.GetResults()[0].GetStatus() == hydrapb.PatchResult_CREATED
+			// the server stamps its own clock: observe the stamped values (M2)
+			cT, uT, eT := "None", "None", "None"
+			if (created && o.SetCreatedAt) || o.SetUpdatedAt {
+				if t := readBack(o.Key); t != nil {
+					if created && o.SetCreatedAt {
+						cT = obsZ(t.CreatedAt)
+					}
+					if o.SetUpdatedAt {
+						uT = obsZ(t.UpdatedAt)
+					}
+				} else {
+					o.Failed = "patched record cannot be read back"
+				}
+			}
+			if r == nil {
+				r = &liveRec{}
+				live[o.Key] = r
+			}
+			r.vt, r.msgpack = vtNone, true
+			switch o.ExpAct {
+			case "clear":
+				eT = "(Some 0%Z)"
+				r.hasExp = false
+			case "set":
+				eT = optZ(o.Expiry)
+				r.hasExp = true
+			}
+			terms = append(terms, fmt.Sprintf("(OPatch %s %s %s %s, None)", skeyBytes(o.Key), cT, uT, eT))
+			touch()
+		case "incr":
+			r := live[o.Key]
+			if r != nil && r.vt != vtInt64 {
+				o.Skipped = "key does not hold an int64"
+				continue
+			}
+			resp, err := srv.GW.IncrementInt64(ctx, &hydrapb.IncrementInt64Request{IslandID: 1, SwampName: c.Swamp, Key: o.Key, IncrementBy: o.Delta})
+			if err != nil || resp == nil || !resp.GetIsIncremented() {
+				o.Failed = fmt.Sprint("increment failed: ", err)
+				continue
+			}
+			if r == nil {
+				r = &liveRec{}
+				live[o.Key] = r
+			}
+			r.vt, r.msgpack = vtInt64, false
+			terms = append(terms, fmt.Sprintf("(OSet %s %d%%N [%d]%%Z None None None, None)", skeyBytes(o.Key), vtInt64, resp.GetValue()))
+			touch()
+		case "shiftexp":
+			nexp := 0
+			for _, r := range live {
+				if r.hasExp {
+					nexp++
+				}
+			}
+			take := int(o.HowMany)
+			if take > nexp {
+				take = nexp
+			}
+			if len(live)-take < 1 {
+				o.Skipped = "would empty the swamp"
+				continue
+			}
+			resp, err := srv.GW.ShiftExpiredTreasures(ctx, &hydrapb.ShiftExpiredTreasuresRequest{IslandID: 1, SwampName: c.Swamp, HowMany: o.HowMany})
+			if err != nil || resp == nil {
+				o.Failed = fmt.Sprint("shift expired failed: ", err)
+				continue
+			}
+			// which records were claimed is C11/C30's business; here they are deletes (M2)
+			o.Shifted = []string{}
+			for _, t := range resp.GetTreasures() {
+				o.Shifted = append(o.Shifted, t.Key)
+				delete(live, t.Key)
+				terms = append(terms, fmt.Sprintf("(ODel %s, None)", skeyBytes(t.Key)))
+			}
+			touch()
 		case "del":
+			if _, ok := live[o.Key]; ok && len(live) == 1 {
+				o.Skipped = "would empty the swamp"
+				continue
+			}
+			delete(live, o.Key)
 			resp, err := srv.GW.Delete(ctx, &hydrapb.DeleteRequest{Swamps: []*hydrapb.DeleteRequest_SwampKeys{{
 				IslandID: 1, SwampName: c.Swamp, Keys: []string{o.Key}}}})
 			if err != nil || resp == nil {
 				o.Failed = fmt.Sprint("delete failed: ", err)
 			}
 			terms = append(terms, fmt.Sprintf("(ODel %s, None)", skeyBytes(o.Key)))
-			for k := range built {
-				dirty[k] = true
-			}
+			touch()
 		case "read":
 			reads++
 			var out []*hydrapb.Treasure
@@ -375,6 +553,9 @@ var keyPool = []string{"a", "ab", "abc", "b", "B", "k1", "k10", "k2", "z", "\xc3
 // instants (ns offsets): a few whole seconds and neighbours one nanosecond apart
 var instants = []int64{1_000_000_000, 2_000_000_000, 2_000_000_001, 3_000_000_000, 5_000_000_000, 5_000_000_001, 8_000_000_000, 13_000_000_000}
 
+// an expiry that has not passed when the run executes (offset from baseSec: about 30 years)
+const farFuture = int64(1_000_000_000) * 1_000_000_000
+
 var allIndexes = []int{0, 1, 2, 3, 4, 5, 6, 7, 8, 9, 10, 11, 12, 13, 14}
 var valueTypes = []int{4, 5, 6, 7, 8, 9, 10, 11, 12, 13, 14}
 
@@ -410,31 +591,89 @@ func genCase(r *common.Rng, maxOps int) caseT {
 	live := map[string]bool{}
 	nlive := 0
 	var ops []opT
-	mkSet := func(k string) {
-		v := genValue(r, pickVt())
-		o := opT{Kind: "set", Key: k, Val: &v}
-		if live[k] { // update: move some attributes
-			o.Created, o.Updated, o.Expiry = inst(30), inst(60), inst(30)
-		} else {
-			o.Created, o.Updated, o.Expiry = inst(80), inst(70), inst(55)
+	// the last npatch keys are (mostly) written through PatchTreasures: msgpack bodies
+	npatch := 1 + r.Intn(3)
+	if npatch >= nkeys {
+		npatch = 1
+	}
+	patchKeys := keys[nkeys-npatch:]
+	setKey := func() string {
+		if r.Chance(12) {
+			return keys[r.Intn(nkeys)]
 		}
-		ops = append(ops, o)
+		return keys[r.Intn(nkeys-npatch)]
+	}
+	mark := func(k string) {
 		if !live[k] {
 			live[k] = true
 			nlive++
 		}
 	}
+	genSet := func(k string, kind string) opT {
+		v := genValue(r, pickVt())
+		o := opT{Kind: kind, Key: k, Val: &v}
+		if live[k] { // update: move some attributes
+			o.Created, o.Updated, o.Expiry = inst(30), inst(60), inst(30)
+		} else {
+			o.Created, o.Updated, o.Expiry = inst(80), inst(70), inst(55)
+		}
+		return o
+	}
+	mkSet := func(k string) {
+		ops = append(ops, genSet(k, "set"))
+		mark(k)
+	}
+	mkPatch := func(k string, forceExp bool) {
+		o := opT{Kind: "patch", Key: k, SetUpdatedAt: r.Bool(), SetCreatedAt: r.Bool()}
+		switch y := r.Intn(100); {
+		case forceExp || y < 35:
+			o.ExpAct, o.Expiry = "set", instants[r.Intn(len(instants))]
+			if r.Chance(15) {
+				o.Expiry = farFuture // not yet expired: never claimed by shiftexp
+			}
+		case y < 70:
+			o.ExpAct = "clear"
+		}
+		ops = append(ops, o)
+		mark(k)
+	}
 	// start with a few records so that the first reads build non-empty indexes
-	for i := 0; i < 2+r.Intn(3) && i < nkeys; i++ {
+	for i := 0; i < 2+r.Intn(3) && i < nkeys-npatch; i++ {
 		mkSet(keys[i])
+	}
+	for _, k := range patchKeys {
+		if r.Chance(70) {
+			mkPatch(k, true)
+		}
 	}
 	n := 12 + r.Intn(maxOps-11)
 	for len(ops) < n {
 		x := r.Intn(100)
 		switch {
+		case x < 28:
+			mkSet(setKey())
+		case x < 31: // several key/values, possibly the same key twice, in one request
+			o := opT{Kind: "setbatch"}
+			m := 2 + r.Intn(2)
+			first := setKey()
+			for j := 0; j < m; j++ {
+				k := setKey()
+				if j > 0 && r.Chance(40) {
+					k = first
+				}
+				o.Batch = append(o.Batch, genSet(k, "set"))
+				mark(k)
+			}
+			ops = append(ops, o)
+		case x < 33:
+			ops = append(ops, genSet(keys[r.Intn(nkeys)], "setnoop"))
 		case x < 42:
-			mkSet(keys[r.Intn(nkeys)])
-		case x < 52:
+			mkPatch(patchKeys[r.Intn(len(patchKeys))], false)
+		case x < 45:
+			ops = append(ops, opT{Kind: "incr", Key: setKey(), Delta: int64(r.Intn(9)) - 3})
+		case x < 48:
+			ops = append(ops, opT{Kind: "shiftexp", HowMany: int32(1 + r.Intn(2))})
+		case x < 56:
 			k := keys[r.Intn(nkeys)]
 			if live[k] && nlive > 1 {
 				ops = append(ops, opT{Kind: "del", Key: k})
@@ -517,6 +756,26 @@ func witnesses() []caseT {
 		{Tag: "witness_created_at_added_later", Ops: []opT{
 			{Kind: "set", Key: "a", Val: fv(vtInt64, 1), Created: s[0]}, {Kind: "set", Key: "b", Val: fv(vtInt64, 2)},
 			rd(2, false, 0, 0), {Kind: "set", Key: "b", Val: fv(vtInt64, 2), Created: s[1]}, rd(2, false, 0, 0)}},
+		{Tag: "witness_patch_clears_expiry_after_build", Ops: []opT{
+			{Kind: "patch", Key: "a", ExpAct: "set", Expiry: s[0]}, {Kind: "patch", Key: "b", ExpAct: "set", Expiry: s[1]},
+			{Kind: "patch", Key: "c", ExpAct: "set", Expiry: s[3]}, rd(1, false, 0, 0),
+			{Kind: "patch", Key: "b", ExpAct: "clear"}, rd(1, false, 0, 0), rd(1, true, 0, 0)}},
+		{Tag: "witness_patch_moves_expiry_and_stamps_updated_at", Ops: []opT{
+			{Kind: "patch", Key: "a", ExpAct: "set", Expiry: s[0], SetUpdatedAt: true, SetCreatedAt: true},
+			{Kind: "patch", Key: "b", ExpAct: "set", Expiry: s[1], SetUpdatedAt: true, SetCreatedAt: true},
+			{Kind: "patch", Key: "c", ExpAct: "set", Expiry: s[3], SetUpdatedAt: true}, rd(1, false, 0, 0), rd(3, false, 0, 0), rd(2, true, 0, 0),
+			{Kind: "patch", Key: "a", ExpAct: "set", Expiry: s[6], SetUpdatedAt: true}, rd(1, false, 0, 0), rd(3, false, 0, 0), rd(1, true, s[1], s[7])}},
+		{Tag: "witness_shift_expired_leaves_all_indexes", Ops: []opT{
+			{Kind: "set", Key: "a", Val: fv(vtInt64, 1), Created: s[0], Expiry: s[3]}, {Kind: "set", Key: "b", Val: fv(vtInt64, 2), Created: s[1], Expiry: s[0]},
+			{Kind: "set", Key: "c", Val: fv(vtInt64, 3), Created: s[3]}, rd(0, false, 0, 0), rd(1, false, 0, 0), rd(2, false, 0, 0), rd(7, true, 0, 0),
+			{Kind: "shiftexp", HowMany: 1}, rd(0, false, 0, 0), rd(1, false, 0, 0), rd(2, false, 0, 0), rd(7, true, 0, 0)}},
+		{Tag: "witness_increment_moves_int64_value", Ops: []opT{
+			{Kind: "set", Key: "a", Val: fv(vtInt64, 1)}, {Kind: "set", Key: "b", Val: fv(vtInt64, 2)}, {Kind: "set", Key: "c", Val: fv(vtInt64, 3)},
+			rd(7, false, 0, 0), {Kind: "incr", Key: "a", Delta: 5}, {Kind: "incr", Key: "d", Delta: -2}, rd(7, false, 0, 0), rd(7, true, 0, 0)}},
+		{Tag: "witness_duplicate_key_in_one_set_request", Ops: []opT{
+			{Kind: "set", Key: "a", Val: fv(vtInt64, 5), Updated: s[1]}, {Kind: "set", Key: "b", Val: fv(vtInt64, 2), Updated: s[3]}, rd(7, false, 0, 0), rd(3, false, 0, 0),
+			{Kind: "setbatch", Batch: []opT{{Kind: "set", Key: "a", Val: fv(vtInt64, 1), Updated: s[6]}, {Kind: "set", Key: "c", Val: fv(vtInt64, 9), Updated: s[0]}, {Kind: "set", Key: "a", Val: fv(vtInt64, 7), Updated: s[2]}}},
+			rd(7, false, 0, 0), rd(3, false, 0, 0)}},
 		{Tag: "witness_mixed_value_types", Ops: []opT{
 			{Kind: "set", Key: "a", Val: fv(vtInt64, 5)}, {Kind: "set", Key: "b", Val: &value{Vt: vtString, S: "x"}}, {Kind: "set", Key: "c", Val: fv(vtInt64, 1)},
 			rd(7, false, 0, 0), rd(14, false, 0, 0), rd(7, true, 0, 0)}},
@@ -526,7 +785,7 @@ func witnesses() []caseT {
 func main() {
 	a := common.ParseArgs()
 	run := common.NewRun(a, "C07", "HV.Swamp.Index")
-	run.Meta.Rule = "a case is one history (typed Sets with explicit created/updated/expiry instants incl. ties, updates moving the sort attribute, deletes, 3-12 keys) on one swamp of the real engine, interleaved with GetByIndex/GetByIndexStream reads; every read page is judged by valid_page and, on tie-free states, compared with the model; non-trivial = some read returned a non-empty page from an index that had been built by an earlier read and was maintained (insert/update/delete) since"
+	run.Meta.Rule = "a case is one history (typed Sets with explicit created/updated/expiry instants incl. ties, updates moving the sort attribute, multi-key Sets with duplicate keys, no-effect Sets, PatchTreasures with meta that sets/moves/CLEARS the expiry and stamps created/updated, IncrementInt64, ShiftExpiredTreasures, deletes, 3-12 keys) on one swamp of the real engine, interleaved with GetByIndex/GetByIndexStream reads; every read page is judged by valid_page and, on tie-free states, compared with the model; non-trivial = some read returned a non-empty page from an index that had been built by an earlier read and was maintained (insert/update/delete) since"
 	rng := common.NewRng(a.Seed, "C07")
 	rig.Quiet()
 	root, err := os.MkdirTemp("", "c07")
@@ -587,8 +846,16 @@ func main() {
 				if len(o.Page) > 0 {
 					run.Hist("read_nonempty")
 				}
+			} else if o.Skipped != "" {
+				run.Hist("op_" + o.Kind + "_skipped")
 			} else {
 				run.Hist("op_" + o.Kind)
+				if o.Kind == "patch" && o.ExpAct != "" {
+					run.Hist("op_patch_expiry_" + o.ExpAct)
+				}
+				if o.Failed != "" {
+					run.Hist("op_" + o.Kind + "_failed")
+				}
 			}
 		}
 	}
